@@ -138,6 +138,7 @@ def bare_mailbox(uids, msg_keys=None):
 
     m = Mailbox.__new__(Mailbox)
     m.name = "verif"
+    m.server = type("StubServer", (), {"active_mailboxes": {}})()
     m.uids = list(uids)
     m.msg_keys = list(msg_keys) if msg_keys is not None else list(range(1, len(uids) + 1))
     m.num_msgs = len(m.uids)
